@@ -443,7 +443,9 @@ Definition obs_eqb : obs -> obs -> bool := list_eqb cres_eqb.
              error reports does not exceed the number of undecodable changes fed so far;
    progress  if, after the last input, at least (number of changes fed) + 1 taking calls follow,
              every always-intelligible change that is deliverable has been handed out
-             (with_key: values and disposes by key; no_key: values). *)
+             (with_key: values and disposes by key; no_key: values);
+   pending   whenever a stream form answers Poll::Pending, every such change deliverable at that
+             moment has been handed out already. *)
 
 Definition is_call (o : op) : bool := match o with OCall _ => true | _ => false end.
 Definition ncalls (l : list op) : nat := length (filter is_call l).
@@ -599,5 +601,40 @@ Definition ok_progress (c : case) (o : obs) : bool :=
       else true
   end.
 
+(* Poll::Pending parks the consumer until the next wake-up: at that moment nothing deliverable may
+   be left (same notion of deliverable as above, with the markers of that moment) *)
+Fixpoint ok_pend (rel nk : bool) (l : list op) (o : obs) (rbm : amap) (seen : list (Z * Z))
+         (acc : list (Z * Z * ckind)) (mono : bool) (sofar : obs) : bool :=
+  match l with
+  | [] => true
+  | OAdd w sn k :: r =>
+      let always := match k with
+                    | KData _ _ => true
+                    | KDisposeKey _ => negb nk
+                    | _ => false
+                    end in
+      if has_id w sn seen then ok_pend rel nk r o rbm seen acc mono sofar
+      else if always && (negb rel || (marker rbm w <=? sn))
+           then ok_pend rel nk r o rbm ((w, sn) :: seen) ((w, sn, k) :: acc) mono sofar
+           else ok_pend rel nk r o rbm ((w, sn) :: seen) acc mono sofar
+  | OMark w sn :: r =>
+      ok_pend rel nk r o (aset rbm w sn) seen acc (mono && (marker rbm w <=? sn)) sofar
+  | OCall _ :: r =>
+      match o with
+      | [] => true
+      | res :: o' =>
+          let sofar' := res :: sofar in
+          (match res with
+           | CPending =>
+               negb mono
+               || forallb (fun t => negb (negb rel || (snd (fst t) <? marker rbm (fst (fst t))))
+                                    || delivered nk sofar' t) acc
+           | _ => true
+           end) && ok_pend rel nk r o' rbm seen acc mono sofar'
+      end
+  end.
+Definition ok_pending (c : case) (o : obs) : bool :=
+  if homogeneous (ops c) then ok_pend (reliable c) (nokey c) (ops c) o [] [] [] true [] else true.
+
 Definition ok (c : case) (o : obs) : bool :=
-  ok_bounded c o && ok_walk (nokey c) (ops c) o [] [] 0 0 && ok_progress c o.
+  ok_bounded c o && ok_walk (nokey c) (ops c) o [] [] 0 0 && ok_progress c o && ok_pending c o.
